@@ -186,7 +186,7 @@
 // 'maxsize'
 static inline unsigned int safec_strnlen_s(const char *str, size_t maxsize) {
     const char *s;
-    for (s = str; *s && maxsize--; ++s)
+    for (s = str; maxsize-- && *s; ++s)
         ;
     return (unsigned int)(s - str);
 }
